@@ -40,6 +40,12 @@ def make_config(seed, tier="quick"):
     # fault injection (separate stream): the application's on_message() raises now and then - the message was handed
     # over all the same and its number is consumed
     cfg["p_hook_raise"] = random.Random(seed ^ 0xC04E7).choice([0.0, 0.0, 0.0, 0.15, 0.4])
+    # fault placement (separate stream, 1 run in 5): the application ends the session with a Logout while the write side
+    # is under back-pressure - its disconnect() stays suspended in drain() (the session fields are reset, the state is
+    # not changed yet) and the reader task goes on processing what the counterparty sends into that window
+    rc = random.Random(seed ^ 0xC04C1)
+    cfg["closing_window"] = rc.random() < 0.2
+    cfg["closing_after"] = rc.randint(0, max(0, cfg["n_stim"] - 2))
     return cfg
 
 
@@ -75,6 +81,7 @@ class InboundSim(PeerSim):
         self.history_over = False
         self.stim_log = []
         self.app_id = 0
+        self.closing = False
         if self.eut_role == "acceptor":
             self.logon_pending = True
         else:
@@ -103,7 +110,21 @@ class InboundSim(PeerSim):
             and self.session_up()
         ):
             out.append((("stim",), 3.0))
+            if self.cfg.get("closing_window") and not self.closing and self.n_stim >= self.cfg["closing_after"] \
+                    and self.logon_done_for_closing():
+                out.append((("closing",), 3.0))
         return out
+
+    def logon_done_for_closing(self):
+        return any(tr is not None and tr.label == "E" and not tr.paused and not tr._closing
+                   for c in self.net.conns if not c.broken for tr in c.tr)
+
+    async def _app_logout(self):
+        try:
+            await self.eut.disconnect(ConnectionState.DISCONNECTED_WCONN_TODAY, logout_message="end of day")
+            self.rec("app_logout_done")
+        except Exception as e:
+            self.rec("app_logout_raised", type(e).__name__)
 
     def fault_phase_over(self):
         if super().fault_phase_over():
@@ -152,6 +173,9 @@ class InboundSim(PeerSim):
         return ["stim", t, seq, int(pd), newseq]
 
     def can_fire_family(self, a):
+        if a[0] == "closing":
+            return (not self.closing and not self.history_over and self.peer.connected and self.session_up()
+                    and self.logon_done_for_closing())
         return (
             a[0] == "stim"
             and not self.history_over
@@ -160,6 +184,17 @@ class InboundSim(PeerSim):
         )
 
     def fire_family(self, a):
+        if a[0] == "closing":
+            self.closing = True
+            self.fault("app_logout_under_backpressure_with_inbound_traffic")
+            for conn in self.net.conns:
+                for tr in conn.tr:
+                    if tr is not None and tr.label == "E" and not tr.paused and not tr._closing:
+                        tr.paused = True
+                        self.rec("pause", tr.label, conn.cid)
+                        tr.protocol.pause_writing()
+            self.spawn(self._app_logout(), "app-logout")
+            return
         if a[0] != "stim":
             return super().fire_family(a)
         _, t, seq, pd, newseq = a
@@ -193,6 +228,15 @@ class InboundSim(PeerSim):
         if self.fed_ptr >= len(sent):
             raise HarnessError("EUT decoded a frame the peer never sent")
         ent = sent[self.fed_ptr]
+        if ent["frame"] != raw and self.closing:
+            # disconnect() empties the receive buffer when it starts: frames that were received behind the one being
+            # processed are dropped unseen (to the session that is the same as frames lost on the way)
+            for j in range(self.fed_ptr + 1, len(sent)):
+                if sent[j]["frame"] == raw:
+                    self.probe("frames_dropped_from_the_buffer_by_a_starting_disconnect", j - self.fed_ptr)
+                    self.fed_ptr = j
+                    ent = sent[j]
+                    break
         if ent["frame"] != raw:
             raise HarnessError(
                 f"EUT decoded {raw[:60]!r}, expected peer frame #{self.fed_ptr} {ent['frame'][:60]!r}"
@@ -249,6 +293,11 @@ class InboundSim(PeerSim):
             bad("not-delivered", "in-sequence application message was not handed to on_message")
         if disconnected:
             # the history ends at the first frame on which the receiver dropped the session
+            if live < E and resetmode:
+                # (the session happened to end in the same window, e.g. the application's own disconnect completing:
+                # the backward move of a Reset-mode SequenceReset is the same defect with or without it)
+                raise Violation("counter-moved-backwards", "C04/counter-moved-backwards/mode=reset",
+                                f"frame 35={t} 34={s} 36={n}: inbound counter went {E} -> {live}")
             if live not in (E, E + 1) and not (t == "4" and n is not None and n > E and live == n):
                 bad("counter-changed-on-disconnect", f"inbound counter {E} -> {live} although the session was dropped")
             self.history_over = True
@@ -273,6 +322,13 @@ class InboundSim(PeerSim):
         else:
             allowed = {E}
             rr_rule = "forbidden" if M.awaiting else "required"
+        if self.closing and rr_rule == "required":
+            # the application's disconnect() is in progress: whether a gap found now is still asked for is the
+            # library's business - but one request at most, and none while one is outstanding
+            rr_rule = "either"
+            self.probe("gap_found_while_a_disconnect_is_in_progress")
+            if len(rr) > 1:
+                bad("duplicate-resend-request", f"{len(rr)} ResendRequests for one gap")
         if live not in allowed:
             if live < E:
                 mode = "reset" if resetmode else ("gapfill" if gapfill else "other")
